@@ -514,6 +514,16 @@ impl RtpTransport {
         *session = Some(Arc::new(Mutex::new(srtp_session)));
     }
 
+    /// Verification hook (C10): (profile, tx key, tx salt, rx key, rx salt) of the installed SRTP session.
+    #[cfg(rustrtc_verif)]
+    #[allow(clippy::type_complexity)]
+    pub fn verif_srtp_keys(&self) -> Option<(String, Vec<u8>, Vec<u8>, Vec<u8>, Vec<u8>)> {
+        self.srtp_session
+            .lock()
+            .as_ref()
+            .map(|s| s.lock().verif_keys())
+    }
+
     pub fn register_listener_sync(&self, ssrc: u32, tx: mpsc::Sender<(RtpPacket, SocketAddr)>) {
         let mut listeners = self.listeners.lock();
         listeners.bind_ssrc_route(ssrc, tx);
